@@ -19,6 +19,10 @@ func init() {
 }
 
 func runC10(p *Prog, r *Report) {
+	if want("C10.9") {
+		// a writer is acknowledged only after its group is logged (shared with C04)
+		ruleAckAfterLog(p, r, "C10.9")
+	}
 	if want("C10.1") {
 		ruleTokenContracts(p, r, "C10.1", 12)
 	}
